@@ -170,6 +170,7 @@ pub fn judge(db: &Db, c: &QCase) -> CaseReport {
         (Expect::Error { .. }, R::Err { .. }) => {}
         (Expect::Error { .. }, R::Ok(_)) => return fail("number-instead-of-error", "the reference reports an error, the tool returned a number"),
         (_, R::Err { .. }) => return fail("error-instead-of-value", "the reference has a value, the tool reported an error"),
+        (_, R::Ok(v)) if !v.canonical => return fail("non-canonical-fraction", "numer()/denom() of the result are not in lowest terms with a positive denominator (this is what --exact prints)"),
         (Expect::Plain { value }, R::Ok(v)) => {
             if !v.unit.is_empty() {
                 return fail("unit-on-plain-number", "a plain number came back with a unit");
